@@ -162,6 +162,8 @@ def correspondence(rep, ctx, ncases=None):
                 except Exception as e:  # noqa: BLE001
                     bad += 1
                     rep.violation("failing-input", f"{desc}: {type(e).__name__}: {e}", {"call": "cumulative_decays-zero", "contents": contents, "unit": unit}, True)
+    from decaylib import mutated_object_block
+    bad += mutated_object_block(rep, ctx, "c03/mutated-object", hp_too=True, nseq=(24 if thorough else 6))
     import synthetic
     bad += synthetic.decay_block(rep, ctx, "c03/synthetic", kinds=("cumulative_decays",))
     bad += synthetic.decay_block(rep, ctx, "c03/synthetic-hp", kinds=("cumulative_decays",), ndatasets=(4 if thorough else 1), per=2, hp=True)
